@@ -317,6 +317,57 @@ def run(tier, seed):
             elif parts.get("MERASE") != "ok" or "placed=1" not in parts.get("MTPL", ""):
                 corr.append({"source": t, "why": "model self-check failed: %s / %s" % (parts.get("MERASE"), parts.get("MTPL"))})
         shutil.rmtree(root, ignore_errors=True)
+    # ---- correspondence of the positioned VM (pos/PVm.v, extracted) with the real evaluator: outcome, primary position and the
+    # whole VIA list on the fault-injected programs and on fault-free generated programs
+    nvm = 0
+    vm_probe = os.path.join(C.TARGET, "debug", "pvmprobe")
+    if okm and not os.path.exists(vm_probe):
+        note = os.path.join(C.CACHE, "pvmprobe.err")
+        broken.append({"correspondence": "pos/PVm.v vs vm.rs: the probe no longer builds against /repo",
+                       "log": open(note).read()[-1200:] if os.path.exists(note) else ""})
+    elif okm:
+        import shutil
+        import subprocess
+        root = os.path.join(C.scratch_root(), "c17vm-%d" % os.getpid())
+        shutil.rmtree(root, ignore_errors=True)
+        os.makedirs(root)
+        vtexts = [c["text"] for c in cases if c["kind"] != "syntax" and not c["extra"]][: (400 if tier == "quick" else 4000)]
+        vtexts += TEMPLATE_TEXTS
+        paths = []
+        for i, t in enumerate(vtexts):
+            pth = os.path.join(root, "v%d.ucg" % i)
+            open(pth, "w").write(t)
+            paths.append(pth)
+        pp = subprocess.run([vm_probe], input="\n".join(paths) + "\n", capture_output=True, text=True, env=C.ENV, timeout=1800)
+        blocks, cur = {}, None
+        for line in pp.stdout.split("\n"):
+            if line.startswith("FILE "):
+                cur = line[5:]
+                blocks[cur] = {}
+            elif cur and " " in line:
+                k, _, v = line.partition(" ")
+                blocks[cur][k] = v
+        todo = [(t, blocks.get(pth, {})) for pth, t in zip(paths, vtexts)]
+        todo = [(t, b_) for t, b_ in todo if "AST" in b_ and "EVAL" in b_]
+        mo = C.model("pvm", ["AST " + b_["AST"] for _, b_ in todo])
+        for (t, b_), m in zip(todo, mo):
+            parts = dict(x.split(" ", 1) for x in m.split("\t") if " " in x)
+            me = parts.get("MEVAL")
+            if me is None:
+                corr.append({"source": t, "why": "positioned VM model: " + m[:200]})
+                continue
+            if re.search(r"(^|KIND )(unsup|fuel)\b", me) and not me.startswith(("ok", "err")):
+                continue                      # outside the model / out of fuel: abstains
+            nvm += 1
+            real_e = re.sub(r" MSG .*$", "", b_["EVAL"])
+            model_e = re.sub(r" KIND .*$", "", me)
+            if real_e != model_e:
+                corr.append({"source": t, "why": "the positioned VM model and the evaluator report differently: real `%s`, model `%s`" % (real_e, me),
+                             "correspondence": "pos/PVm.v pvm_prog vs FileBuilder::eval_string (outcome, primary position, VIA list)"})
+            elif parts.get("MERASED") != "ok":
+                corr.append({"source": t, "why": "model self-check failed: erasure " + str(parts.get("MERASED"))})
+        shutil.rmtree(root, ignore_errors=True)
+    cov["positioned_evaluations_compared"] = nvm
     cov["positioned_translations_compared"] = ncmp
     cov["op_position_triples_compared"] = ntriples
     # a listed finding: an escape that becomes a line feed inside a template moves the positions of later @{...} expressions down
